@@ -113,12 +113,34 @@ def dsk6(ctx, c):
                         and n.body and isinstance(n.body[0], ast.Return) and U(n.body[0].value) == U(lp.target) \
                         and U(n.test.operand.args[0]) == U(lp.target):
                     ok = True
+    # indexed form: for i in range(a, b): g = self.granule_fill_order[i] - the range must cover all 68 positions
+    partial = None
+    for lp in loops:
+        if isinstance(lp.iter, ast.Call) and U(lp.iter.func) == "range" and re.search(r"fill_order\[%s\]" % re.escape(U(lp.target)), U(lp)):
+            vals = [try_fold(a_, ctx.env) for a_ in lp.iter.args]
+            if all(isinstance(v, int) for v in vals) and len(vals) in (1, 2):
+                lo, hi = (0, vals[0]) if len(vals) == 1 else vals
+                if lo > 0 or hi < D.GRANULES:
+                    partial = "positions %d..%d" % (lo, hi - 1)
+                else:
+                    gv = next((U(a_.targets[0]) for a_ in ast.walk(lp) if isinstance(a_, ast.Assign) and re.search(r"fill_order\[%s\]$" % re.escape(U(lp.target)), U(a_.value))), None)
+                    if gv and re.search(r"if not self\.granule_in_use\(%s\):\s+return %s\b" % (re.escape(gv), re.escape(gv)), U(lp)):
+                        ok = True
+        if isinstance(lp.iter, ast.Subscript) and "fill_order" in U(lp.iter.value) and isinstance(lp.iter.slice, ast.Slice):
+            hi = try_fold(lp.iter.slice.upper, ctx.env) if lp.iter.slice.upper is not None else D.GRANULES
+            lo = try_fold(lp.iter.slice.lower, ctx.env) if lp.iter.slice.lower is not None else 0
+            if isinstance(hi, int) and isinstance(lo, int) and (lo > 0 or 0 <= hi < D.GRANULES):
+                partial = "positions %d..%d" % (lo, hi - 1)
+    if partial:
+        c.finding("find_empty_granule", "searches only %s of the fill order" % partial,
+                  "find_empty_granule looks at %s of the 68-entry fill order: a free granule outside that window is never handed out and the disk reports full early" % partial, where)
+        ok = None
     t_fe = U(fn.node)
-    if not ok and re.search(r"next\(\(?\(?(\w+) for \1 in self\.granule_fill_order if not self\.granule_in_use\(\1\)\)?", t_fe):
+    if ok is False and re.search(r"next\(\(?\(?(\w+) for \1 in self\.granule_fill_order if not self\.granule_in_use\(\1\)\)?", t_fe):
         ok = True
     if ok:
         c.ok("find_empty_granule", "returns the first granule of the fill order that is not in use", where)
-    else:
+    elif ok is False:
         rets = [U(n.value) for n in ast.walk(fn.node) if isinstance(n, ast.Return) and n.value is not None]
         if any("granule_in_use" in U(n) for n in ast.walk(fn.node)):
             c.undecided("find_empty_granule", "allocation-loop-shape-unknown", str(rets), where)
@@ -275,6 +297,18 @@ def dsk7(ctx, c):
         c.finding("add_file:directory-full", "no raise on a full directory", "add_file does not fail when find_empty_directory_entry reports no free slot", wa)
     else:
         c.undecided("add_file:directory-full", "shape-not-recognised", "", wa)
+    # the slot written is the one the free-slot search returned, nothing else: any alternative source can name an entry in use,
+    # whose file then disappears from the directory while its granules stay allocated
+    for n in ast.walk(af_flat):
+        if isinstance(n, ast.Assign) and any(x in slot_calls for x in ast.walk(n.value)):
+            if n.value in slot_calls:
+                c.ok("add_file:directory-slot", "the slot is the result of the free-slot search", repo.loc(af, n))
+            elif any(isinstance(x, (ast.GeneratorExp, ast.ListComp, ast.IfExp, ast.BoolOp)) for x in ast.walk(n.value)):
+                c.finding("add_file:directory-slot", "the slot can come from somewhere other than the free-slot search",
+                          "add_file takes the directory slot from `%s`: a slot that is in use can be chosen, the file stored there vanishes from the directory "
+                          "and its granules stay marked in the FAT" % U(n.value)[:90], repo.loc(af, n))
+            else:
+                c.undecided("add_file:directory-slot", "slot-source-not-recognised", U(n.value)[:80], repo.loc(af, n))
     # directory_entry_in_use: 0x00 and 0xFF free
     du = repo.method(CLS, "directory_entry_in_use")
     for r in _returned_tests(du.node):
@@ -324,6 +358,24 @@ def dsk2(ctx, c):
     repo = ctx.repo
     fn, res = _stores_of(ctx, "write_dir_entry")
     where = repo.loc(fn, fn.node)
+    # the name and extension bytes come from the file's own name and extension, padded / cut / upper-cased and nothing else:
+    # a default substituted for an empty one stores a different name than the one asked for
+    binds = {}
+    for n in ast.walk(fn.node):
+        if isinstance(n, ast.Assign) and len(n.targets) == 1 and isinstance(n.targets[0], ast.Name):
+            binds.setdefault(n.targets[0].id, []).append(n.value)
+    for n in ast.walk(fn.node):
+        if isinstance(n, ast.For):
+            srcs = [n.iter] + [v for x in ast.walk(n.iter) if isinstance(x, ast.Name) and len(binds.get(x.id, [])) == 1 for v in binds[x.id]]
+            for fld in ("name", "extension"):
+                if any(re.search(r"\.%s\b" % fld, U(e)) for e in srcs):
+                    subst = [b for e in srcs for b in ast.walk(e) if isinstance(b, (ast.BoolOp, ast.IfExp)) and re.search(r"\.%s\b" % fld, U(b))]
+                    if subst:
+                        c.finding("write_dir_entry:%s:source" % fld, "a substitute is stored when the %s is empty" % fld,
+                                  "write_dir_entry takes the %s bytes from `%s`: a file whose %s is empty is stored under an invented one and lists back "
+                                  "differently from what was added" % (fld, U(subst[0])[:70], fld), repo.loc(fn, n))
+                    else:
+                        c.ok("write_dir_entry:%s:source" % fld, "the file's own %s" % fld, repo.loc(fn, n))
     params = [p for p in fn.params if p != "self"]
     if len(params) < 4:
         c.undecided("write_dir_entry", "signature-changed", str(params), where)
@@ -662,7 +714,13 @@ def dsk4(ctx, c):
     txt = U(cf.node)
     good = re.search(r"total_bytes \+= \(\(fat_entry & \w+\) - 1\) \* DiskConstants\.BYTES_PER_SECTOR", txt) and "total_bytes += bytes_in_last_sector" in txt \
         and "total_bytes += DiskConstants.HALF_TRACK_LEN" in txt
-    if good:
+    subst = [n for n in ast.walk(cf.node) if isinstance(n, ast.AugAssign) and isinstance(n.value, (ast.BoolOp, ast.IfExp))]
+    good = good and re.search(r"total_bytes \+= bytes_in_last_sector\n", txt + "\n")
+    if subst:
+        c.finding("calculate_file_length:arithmetic", "an addend is replaced when it is zero: %s" % U(subst[0].value)[:60],
+                  "calculate_file_length adds `%s`: a recorded count of 0 (a stream that ends on a sector boundary) is replaced by another number, "
+                  "so such a file reads back longer than it was written" % U(subst[0].value)[:70], repo.loc(cf, subst[0]))
+    elif good:
         c.ok("calculate_file_length:arithmetic", "full granules * 2304 + (sectors - 1) * 256 + last-sector bytes", wc)
     else:
         c.undecided("calculate_file_length:arithmetic", "expression-shape-unknown", "", wc)
@@ -1160,6 +1218,39 @@ def dsk5(ctx, c):
             c.finding("list_files:length-zero", "a stored length of 0 is taken as unknown and recomputed from the FAT including header and trailer",
                       "the writer stores len(data) in the header, the reader treats 0 as 'unknown' and derives the length from the FAT and directory, which count the header and trailer: "
                       "an empty machine-language file cannot be read back", repo.loc(lf, lf.node))
+    # the directory scan visits all 72 entries: entries in use may follow a free one (00 deleted, FF never used - both are
+    # handed out first-fit by find_empty_directory_entry), so stopping at a free entry hides the files behind it
+    for n in ast.walk(lf.node):
+        if isinstance(n, ast.For) and isinstance(n.iter, ast.Call) and U(n.iter.func) == "range" and any(
+                isinstance(x, ast.Subscript) and U(x.value) == "self.buffer" for x in ast.walk(n)):
+            inner = [x for x in ast.walk(n) if isinstance(x, (ast.For, ast.While)) and x is not n]
+            exits = [x for x in ast.walk(n) if isinstance(x, (ast.Break, ast.Return)) and not any(x in list(ast.walk(i)) for i in inner)]
+            if exits:
+                c.finding("list_files:scan", "the directory scan stops early",
+                          "list_files leaves the loop over the directory entries with `%s`: entries in use behind that point are never listed or extracted" % U(exits[0]),
+                          repo.loc(lf, exits[0]))
+            else:
+                c.ok("list_files:scan", "every entry is visited", repo.loc(lf, n))
+            break
+    from .cas import listing_collection
+    listing_collection(c, repo, CLS)
+    # the FAT chain links the granules in the order the data was laid into them
+    af = repo.method(CLS, "add_file")
+    wg = [n for n in ast.walk(af.node) if isinstance(n, ast.Call) and U(n.func) == "self.write_to_granules" and len(n.args) >= 2]
+    wf = [n for n in ast.walk(af.node) if isinstance(n, ast.Call) and U(n.func) == "self.write_to_fat" and n.args]
+    if len(wg) == 1 and len(wf) == 1:
+        a, b = wg[0].args[1], wf[0].args[0]
+        reorder = lambda e: (isinstance(e, ast.Call) and U(e.func) in ("sorted", "reversed", "set", "list", "tuple", "frozenset") and e.args and U(e.func) not in ("list", "tuple")) or \
+            (isinstance(e, ast.Call) and U(e.func) in ("list", "tuple") and e.args and isinstance(e.args[0], ast.Call) and U(e.args[0].func) in ("sorted", "reversed", "set")) or \
+            (isinstance(e, ast.Subscript) and isinstance(e.slice, ast.Slice) and e.slice.step is not None)
+        if U(a) == U(b):
+            c.ok("add_file:chain-order", "data and FAT chain use the same granule list", repo.loc(af, wf[0]))
+        elif reorder(a) != reorder(b) and (U(a) in U(b) or U(b) in U(a)):
+            c.finding("add_file:chain-order", "the data is laid out over %s, the FAT chain over %s" % (U(a), U(b)),
+                      "add_file writes the data into the granules in the order of `%s` and links them in the FAT in the order of `%s`: when the allocation order is not ascending "
+                      "the chain visits the pieces of the file in another order than they were written" % (U(a), U(b)), repo.loc(af, wf[0]))
+        else:
+            c.undecided("add_file:chain-order", "granule-list-arguments-differ", "%s / %s" % (U(a), U(b)), repo.loc(af, wf[0]))
 
 
 RULES["DSK-5"] = dsk5
